@@ -289,6 +289,9 @@ def run(ctx):
                 if family == "py":
                     from . import c03
                     c03.sanitize(lib)
+                if cfg.get("F_CFI") and any(xlib.has_vector(f) for f in lib["funcs"]):
+                    cfg = dict(cfg, F_CFI=False)        # recorded known finding: std::vector arguments with F_CFI
+                    ctx.exclude_known("probe:vector-with-cfi", 1)
                 jobs.append((len(jobs), lib, family, cfg))
     for out in core.pool_map(_gen_job, jobs):
         nt = (out["family"], tuple(out["rows"]), repr(sorted(out["options"].items()))) if out["options"] else None
